@@ -293,6 +293,8 @@ ObsUnary ==
    reshapes |-> {s \in Shapes : CanReshape(X0, s)},
    items |-> IF sx = <<>> THEN <<>> ELSE Iterate(X0),
    stack2 |-> Stack(<<X0, Obj(sx, [p \in 1..Size(sx) |-> Size(sx) + p])>>),
+   \* type(X).combine([X0, Y]) for Y of the same and of other shapes (cells of Y: Size(sx) + p)
+   combines |-> {<<s, Combine(<<X0, Obj(s, [p \in 1..Size(s) |-> Size(sx) + p])>>)>> : s \in {sx, <<>>, <<2>>, <<1, 3>>}},
    tuples |-> {<<ix, IndexTuple(X0, ix).cell>> : ix \in Indices(sx)},
    slices |-> IF sx = <<>> THEN {} ELSE {<<ab[1], ab[2], Slice(X0, ab[1], ab[2])>> : ab \in {c \in (0..(Head(sx) - 1)) \X (1..Head(sx)) : c[1] < c[2]}} ]
 EmitUnary == st # <<>> \/ PrintT("UNARY " \o ToJson(ObsUnary))
